@@ -136,8 +136,9 @@ def run_case(args):
                 ordered = None
             else:
                 keys = [(c, rng.random() < 0.4) for c in rng.sample([0, 1, 2], rng.randint(1, 3))]
-                limit = rng.choice([None, 0, 1, 3, len(L), len(L) + 5])
-                offset = rng.choice([0, 0, 1, 2, len(L)])
+                # (incl. windows around the executor's 1024-row processing window)
+                limit = rng.choice([None, 0, 1, 3, len(L), len(L) + 5, 1023, 1025, 1500])
+                offset = rng.choice([0, 0, 1, 2, len(L), 1020, 1024, 1030])
                 cmd = dict(op="opimpl", kind="topn", keys=[[c, d] for c, d in keys], limit=limit, offset=offset, table="l")
                 want = None
                 label = f"order {keys} limit {limit} offset {offset}"
